@@ -30,7 +30,16 @@ func (fs *fontSpec) String() string {
 	}
 	sort.Ints(rr)
 	var sb strings.Builder
-	fmt.Fprintf(&sb, "font{%s n=%d names=%q cmap={", fs.Kind, fs.N, fs.Names)
+	fmt.Fprintf(&sb, "font{%s n=%d names=[", fs.Kind, fs.N)
+	for i, n := range fs.Names {
+		// glyphs with a generated default name are left out (big fonts)
+		if n == "" {
+			fmt.Fprintf(&sb, "%d:- ", i)
+		} else if n != fmt.Sprintf("glyph%05d", i) {
+			fmt.Fprintf(&sb, "%d:%s ", i, n)
+		}
+	}
+	sb.WriteString("] cmap={")
 	for i, r := range rr {
 		if i > 0 {
 			sb.WriteByte(' ')
